@@ -100,6 +100,9 @@ func (m *Migrator) MigrateFiles(patterns []string, outputPath string) error {
 
 			if sharedTypeConverter == nil && pkg.Types != nil {
 				sharedTypeConverter = NewTypeConverter(pkg.Types)
+				for _, imported := range pkg.Types.Imports() {
+					sharedTypeConverter.SetPackageName(imported.Path(), imported.Name())
+				}
 			}
 
 			// Transform patterns
